@@ -221,3 +221,63 @@ func Pick2[T any](key int, a, b T) T {
 	}
 	return b
 }
+
+// ---- process stall detector -------------------------------------------------------------------------------------------
+//
+// A few rules are upper bounds on elapsed time ("completed no later than the wait it was in would have ended"). They are
+// only meaningful while this process is being scheduled: a heartbeat goroutine ticks every 5ms and remembers every gap
+// of 100ms or more between two ticks; a rule whose interval overlaps a long gap is not judged.
+
+var (
+	hbOnce sync.Once
+	hbMu   sync.Mutex
+	hbGaps [][2]time.Time // [from, to] of gaps >= 100ms, in time order (bounded)
+	hbLast atomic.Int64   // unix nanos of the last tick
+)
+
+// StartHeartbeat starts the stall detector (idempotent).
+func StartHeartbeat() {
+	hbOnce.Do(func() {
+		hbLast.Store(time.Now().UnixNano())
+		go func() {
+			prev := time.Now()
+			for {
+				time.Sleep(5 * time.Millisecond)
+				now := time.Now()
+				if now.Sub(prev) >= 100*time.Millisecond {
+					hbMu.Lock()
+					if len(hbGaps) < 100000 {
+						hbGaps = append(hbGaps, [2]time.Time{prev, now})
+					}
+					hbMu.Unlock()
+				}
+				prev = now
+				hbLast.Store(now.UnixNano())
+			}
+		}()
+	})
+}
+
+// StalledBetween returns the longest time the heartbeat went without a tick in an interval overlapping [a, b] (including
+// a gap that is still open at b).
+func StalledBetween(a, b time.Time) time.Duration {
+	if hbLast.Load() == 0 {
+		return 0 // detector not running: nothing is known, every rule is judged
+	}
+	var worst time.Duration
+	hbMu.Lock()
+	for _, g := range hbGaps {
+		if g[1].After(a) && g[0].Before(b) {
+			if d := g[1].Sub(g[0]); d > worst {
+				worst = d
+			}
+		}
+	}
+	hbMu.Unlock()
+	if last := time.Unix(0, hbLast.Load()); last.Before(b) {
+		if d := b.Sub(last); d > worst {
+			worst = d
+		}
+	}
+	return worst
+}
